@@ -48,7 +48,7 @@ def gen_scalar(rng):
     if k == 8:
         return pick(rng, ["ENUM[A,B,C]", 'REGEX["^[a-z]+$"]', "TYPE[STRING]", "NEVER[X]", "ALWAYS[Y]", "PATTERN[abc]", "HOLOGRAPHIC[JIT]"])
     if k == 9:
-        return pick(rng, WORDS) + pick(rng, ["<q>", "{q}", "<a.b>", "{x_1}"])
+        return pick(rng, WORDS) + pick(rng, ["<q>", "<q>", "<a.b>", "<a.b>", "{q}"])
     if k == 10:
         return pick(rng, ["hello world again", "two words", "Multi Word Value here"])      # lenient multi-word coalescing
     if k == 11:
@@ -228,6 +228,29 @@ def gen_doc(rng, flavour=None):
     return text, flavour
 
 
+VOCAB_TERMS = ["ALPHA", "BETA", "ZED", "OMEGA", "K9", "MIDDLE", "AA", "ZZ", "X_Y", "NOTE", "TERM_7", "Q"]
+
+
+def gen_hydrate(rng):
+    """files + args of a hydrate() call: a vocabulary capsule, a source document importing it, local definitions
+    that may collide, content that uses some of the terms (what is pruned / collides is computed with sets)."""
+    terms = rng.sample(VOCAB_TERMS, rng.randrange(3, 10))
+    vocab = ['===VOCAB===', 'META:', f'  TYPE::{pick(rng, ['"CAPSULE"', 'CAPSULE', 'SPEC'] if rng.random() < .15 else ['"CAPSULE"'])}', '  VERSION::"1.0.0"', '', '§1::TERMS']
+    vocab += [f'  {t}::"def of {t}"' for t in terms] + ['', '===END===', '']
+    local = rng.sample(VOCAB_TERMS, rng.randrange(0, 4))
+    used = rng.sample(terms + local, rng.randrange(0, len(terms + local) + 1)) if terms + local else []
+    ver = pick(rng, ["", "", "", ',"1.0.0"'])
+    src = ['===SOURCE===', 'META:', '  TYPE::"SPEC"', '  VERSION::"1.0.0"', '', f'§CONTEXT::IMPORT["@test/vocabulary"{ver}]', '']
+    if local:
+        src += ['§CONTEXT::LOCAL'] + [f'  {t}::"local {t}"' for t in local] + ['']
+    src += ['§1::CONTENT', f'  REF::"uses {" and ".join(used)} here"'] + [f'  {t}::1' for t in used[:2]] + ['', '===END===', '']
+    return {"files": {"specs/vocabulary.oct.md": "\n".join(vocab), "source.oct.md": "\n".join(src)},
+            "args": {"source": "$SB/source.oct.md", "vocab": "$SB/specs/vocabulary.oct.md",
+                     "output": pick(rng, ["$SB/docs/out.oct.md", "$SB/out.oct.md", None]),
+                     "prune": pick(rng, ["list", "list", "hash", "count", "elide", "bogus"]),
+                     "collision": pick(rng, ["error", "source_wins", "local_wins"])}}
+
+
 def sha(s):
     return hashlib.sha256(s.encode("utf-8")).hexdigest()
 
@@ -307,7 +330,8 @@ def gen_calls(rng, n, resources=(), frozen=None):
                 a["format"] = pick(rng, ["gbnf", "json_schema", "json_schema", "ebnf"])
             c.update(tool="compile", args=a)
         else:
-            fn = pick(rng, ["parse_emit", "parse_warn", "tokenize", "seal", "project", "validate_api", "validate_api", "schema_extract", "gbnf", "gbnf", "exports"])
+            fn = pick(rng, ["parse_emit", "parse_warn", "tokenize", "seal", "project", "validate_api", "validate_api", "schema_extract", "gbnf", "gbnf", "exports",
+                            "hydrate", "hydrate"])
             a = {"content": doc}
             if fn == "parse_emit":
                 a["twice"] = rng.random() < .5
@@ -319,6 +343,9 @@ def gen_calls(rng, n, resources=(), frozen=None):
                 a = {"schema": pick(rng, SCHEMAS[1:]), "envelope": rng.random() < .7}
             if fn == "exports":
                 a = {"category": pick(rng, [None, "functions", "ast", "operators"])}
+            if fn == "hydrate":
+                h = gen_hydrate(rng)
+                a, c["files"] = h["args"], h["files"]
             c.update(tool="api", fn=fn, args=a)
         calls.append(c)
     return calls
